@@ -31,7 +31,15 @@ import (
 )
 
 func main() {
-	if err := run(hx.ParseFlags()); err != nil {
+	cfg := hx.ParseFlags()
+	if *genPath != "" {
+		if err := runGen(*genPath); err != nil {
+			fmt.Fprintln(os.Stderr, "translator error:", err)
+			os.Exit(3)
+		}
+		return
+	}
+	if err := run(cfg); err != nil {
 		fmt.Fprintln(os.Stderr, "harness error:", err)
 		os.Exit(3)
 	}
@@ -669,6 +677,12 @@ func run(c hx.Config) error {
 	nSynth, nParse := 6000, 6000
 	if c.Thorough() {
 		nSynth, nParse = 150000, 150000
+	}
+	if *aim != "" {
+		// a modelled Go function was edited since its fingerprint was recorded: every synthesised case reaches all
+		// four formatters and ToDotPath, so the aimed run is simply a larger one
+		nSynth *= 4
+		o.Count("aimed:" + *aim)
 	}
 	g := &synth{r: r}
 	for i := 0; i < nSynth; i++ {
